@@ -35,8 +35,8 @@ type RetryParams struct {
 	Jitter     float64  `json:"jitter"`
 	// TokenBehaviours: consumed per arriving token request (503 500 429 408 timeout 403), 200 afterwards
 	TokenBehaviours []string `json:"token_behaviours,omitempty"`
-	CancelAtUs int64    `json:"cancel_at_us,omitempty"` // cancel the context at this simulated instant (0 = never)
-	Deadline   bool     `json:"deadline,omitempty"`     // the context ends by a deadline at that instant instead of a cancel call
+	CancelAtUs      int64    `json:"cancel_at_us,omitempty"` // cancel the context at this simulated instant (0 = never)
+	Deadline        bool     `json:"deadline,omitempty"`     // the context ends by a deadline at that instant instead of a cancel call
 	// ViaRepo: the first request is a blob upload made by remote.Repository.Push through
 	// this client stack (POST for the session, then the PUT the behaviours apply to). Body
 	// "seekable" is then a ReadSeeker positioned behind a header inside a larger stream.
